@@ -556,8 +556,8 @@ def _b_oscillator(a):
 reg(Recipe(
     "OscillatorDiscipline", "discipline", ("OscillatorDiscipline", "ODEDiscipline"),
     st.fixed_dictionaries({"omega": st.sampled_from([1, 2, 3]), "nt": st.integers(3, 6), "traj": st.booleans()}),
-    _b_oscillator, grammars=("JSON",), radius=0.3, approx=True,
-    notes="OscillatorDiscipline is an ODEDiscipline around an AutoPyDiscipline; Jacobian by finite differences",
+    _b_oscillator, grammars=("JSON",), radius=0.3, linearizable=False,
+    notes="OscillatorDiscipline is an ODEDiscipline around an AutoPyDiscipline; executed only (no analytic Jacobian, finite differences of an ODE solve are slow)",
 ))
 
 
@@ -947,4 +947,314 @@ reg(Recipe(
         "which": st.integers(0, 2), "complex": st.just(False), "max_iter": st.sampled_from([3, 10]), "tol": st.sampled_from([1e-6, 1e-10]),
     }),
     _b_sobieski_process, grammars=("Simpler",), radius=0.02, weight=2, stateful=True,
+))
+
+
+# ======================================================================================
+# scenario adapters (disciplines wrapping a scenario)
+# ======================================================================================
+def _small_mdo_scenario(max_iter: int = 4):
+    from gemseo import create_scenario
+    from gemseo.algos.design_space import DesignSpace
+    from gemseo.disciplines.analytic import AnalyticDiscipline
+
+    d = AnalyticDiscipline({"f": "(x-z)**2+v*x", "g": "x+z-3"}, name="sub")
+    d.io.input_grammar.defaults = {"x": np.array([0.5]), "z": np.array([1.0]), "v": np.array([0.25])}
+    space = DesignSpace()
+    space.add_variable("x", lower_bound=-2.0, upper_bound=3.0, value=0.5)
+    scenario = create_scenario([d], "f", space, formulation_name="DisciplinaryOpt")
+    scenario.add_constraint("g", constraint_type="ineq")
+    scenario.set_algorithm(algo_name="SLSQP", max_iter=max_iter)
+    return scenario
+
+
+def _b_adapter(a):
+    from gemseo.disciplines.scenario_adapters.mdo_objective_scenario_adapter import MDOObjectiveScenarioAdapter
+    from gemseo.disciplines.scenario_adapters.mdo_scenario_adapter import MDOScenarioAdapter
+
+    cls = MDOObjectiveScenarioAdapter if a["objective"] else MDOScenarioAdapter
+    outputs = ["f"] if a["objective"] else ["f", "g"][: a["n_out"]]
+    return cls(
+        _small_mdo_scenario(a["max_iter"]), ["z", "v"][: a["n_in"]], outputs, reset_x0_before_opt=a["reset"],
+        set_x0_before_opt=False, name="adapter" if a["named"] else "",
+    )
+
+
+reg(Recipe(
+    "ScenarioAdapter", "discipline", ("MDOScenarioAdapter", "MDOObjectiveScenarioAdapter"),
+    st.fixed_dictionaries({
+        "objective": st.booleans(), "n_in": st.integers(1, 2), "n_out": st.integers(1, 2), "reset": st.booleans(),
+        "max_iter": st.integers(2, 4), "named": st.booleans(),
+    }),
+    _b_adapter, grammars=("Simpler",), radius=0.2, linearizable=False, stateful=True,
+    notes="the adapted scenario restarts from its last design unless reset_x0_before_opt; executed only",
+))
+
+
+# ======================================================================================
+# scenarios
+# ======================================================================================
+FORMULATIONS = ["DisciplinaryOpt", "MDF", "IDF", "DisciplinaryOpt+MDA"]
+
+
+def build_scenario(a):
+    """An MDO or DOE scenario: analytic DisciplinaryOpt, Sellar MDF / IDF, DisciplinaryOpt over an MDA."""
+    from gemseo import create_scenario
+    from gemseo.mda.gauss_seidel import MDAGaussSeidel
+    from gemseo.problems.mdo.sellar.sellar_1 import Sellar1
+    from gemseo.problems.mdo.sellar.sellar_2 import Sellar2
+    from gemseo.problems.mdo.sellar.sellar_design_space import SellarDesignSpace
+    from gemseo.problems.mdo.sellar.sellar_system import SellarSystem
+
+    form = FORMULATIONS[a["form"] % 4]
+    typ = "DOE" if a["doe"] else "MDO"
+    if form == "DisciplinaryOpt":
+        scenario = _small_mdo_scenario()
+        if typ == "DOE":
+            from gemseo.algos.design_space import DesignSpace
+
+            d = scenario.disciplines[0]
+            space = DesignSpace()
+            space.add_variable("x", lower_bound=-2.0, upper_bound=3.0, value=0.5)
+            scenario = create_scenario([d], "f", space, formulation_name="DisciplinaryOpt", scenario_type="DOE")
+            scenario.add_constraint("g", constraint_type="ineq")
+        if a["observable"]:
+            scenario.add_observable("g", observable_name="obs_g")
+        return scenario
+    discs = [Sellar1(), Sellar2(), SellarSystem()]
+    space = SellarDesignSpace()
+    settings = {}
+    if form == "DisciplinaryOpt+MDA":
+        discs = [MDAGaussSeidel(discs, max_mda_iter=8, tolerance=1e-8)]
+        form = "DisciplinaryOpt"
+    elif form == "MDF":
+        settings = {"main_mda_name": ["MDAChain", "MDAGaussSeidel", "MDAJacobi"][a["mda"] % 3]}
+    if form != "IDF":
+        space.filter(["x_1", "x_2", "x_shared"])
+    scenario = create_scenario(discs, "obj", space, formulation_name=form, scenario_type=typ, maximize_objective=a["maximize"], **settings)
+    if a["constraints"]:
+        scenario.add_constraint("c_1", constraint_type="ineq")
+        scenario.add_constraint("c_2", constraint_type="ineq")
+    if a["observable"]:
+        scenario.add_observable("y_1")
+    return scenario
+
+
+def scenario_settings(a, run) -> dict:
+    """Driver settings of one run (JSON primitives in ``run``)."""
+    if a["doe"]:
+        if run["algo"] % 2 == 0:
+            return {"algo_name": "PYDOE_LHS", "n_samples": 2 + run["n"] % 3, "random_state": 1 + run["seed"], "eval_jac": bool(run["jac"])}
+        return {"algo_name": "OT_HALTON", "n_samples": 2 + run["n"] % 3, "eval_jac": bool(run["jac"])}
+    algo = ["SLSQP", "L-BFGS-B", "NLOPT_COBYLA"][run["algo"] % 3]
+    if algo == "L-BFGS-B" and (a["constraints"] or a["form"] % 4 in (0, 2)):
+        algo = "SLSQP"  # L-BFGS-B does not handle constraints
+    return {"algo_name": algo, "max_iter": 2 + run["n"] % 4}
+
+
+_run_st = st.fixed_dictionaries({"algo": st.integers(0, 5), "n": st.integers(0, 5), "seed": st.integers(0, 3), "jac": st.booleans()})
+reg(Recipe(
+    "Scenario", "scenario", ("MDOScenario", "DOEScenario"),
+    st.fixed_dictionaries({
+        "form": st.integers(0, 3), "doe": st.booleans(), "constraints": st.booleans(), "observable": st.booleans(),
+        "maximize": st.booleans(), "mda": st.integers(0, 2),
+    }),
+    build_scenario, grammars=("Simpler",), stateful=True,
+))
+
+
+# ======================================================================================
+# MDOFunction kinds
+# ======================================================================================
+FUNCTION_KINDS = [
+    "MDOFunction_scalar", "MDOFunction_vector", "MDOLinearFunction", "MDOQuadraticFunction", "sum_and_scale", "product",
+    "quotient", "offset_neg", "FunctionRestriction", "ConvexLinearApprox", "LinearCompositeFunction", "Concatenate",
+    "DisciplineAdapter", "linear_approximation", "quadratic_approximation", "ProblemFunction_objective",
+    "ProblemFunction_constraint", "ProblemFunction_observable",
+]
+
+
+def _coef(a, n, k=0):
+    c = a["c"]
+    return [float(c[(k + i) % len(c)]) for i in range(n)]
+
+
+def _basic_functions(a, n):
+    from gemseo.core.mdo_functions.mdo_function import MDOFunction
+    from gemseo.core.mdo_functions.mdo_linear_function import MDOLinearFunction
+    from gemseo.core.mdo_functions.mdo_quadratic_function import MDOQuadraticFunction
+
+    b = _coef(a, n)
+    mat = np.array([_coef(a, n, 1 + i) for i in range(n)])
+    f = MDOFunction(
+        QuadForm(a["c"][0], b, mat), "f", jac=QuadFormJac(a["c"][0], b, mat), expr="q(x)", input_names=["x"], dim=1,
+        f_type=MDOFunction.FunctionType.OBJ,
+    )
+    m2 = np.array([_coef(a, n, 2), _coef(a, n, 3)])
+    g = MDOFunction(VecForm(m2, [1.0, -0.5]), "g", jac=VecFormJac(m2, [1.0, -0.5]), input_names=["x"], dim=2, output_names=["g_0", "g_1"])
+    lin = MDOLinearFunction(m2 * 0.5, "lin", input_names=["x"], value_at_zero=np.array([1.0, -1.0]))
+    quad = MDOQuadraticFunction(mat + mat.T, "quad", input_names=["x"], linear_coeffs=np.array(b), value_at_zero=2.0)
+    return f, g, lin, quad
+
+
+def build_problem(a, n=None):
+    """An OptimizationProblem over ``x`` (size n) with quadratic objective, vector inequality, linear equality."""
+    from gemseo.algos.design_space import DesignSpace
+    from gemseo.algos.optimization_problem import OptimizationProblem
+    from gemseo.core.mdo_functions.mdo_function import MDOFunction
+
+    n = n or a["n"]
+    f, g, lin, quad = _basic_functions(a, n)
+    space = DesignSpace()
+    space.add_variable("x", size=n, lower_bound=-2.0, upper_bound=3.0, value=np.full(n, 0.5))
+    kwargs = {}
+    if a.get("fd"):
+        kwargs = {"differentiation_method": "finite_differences", "differentiation_step": 1e-6}
+    problem = OptimizationProblem(space, **kwargs)
+    problem.objective = f
+    if a.get("maximize"):
+        problem.minimize_objective = False
+    if a.get("ineq", True):
+        problem.add_constraint(g, value=float(a["c"][1]), constraint_type=MDOFunction.ConstraintType.INEQ, positive=bool(a.get("positive")))
+    if a.get("eq"):
+        problem.add_constraint(lin, constraint_type=MDOFunction.ConstraintType.EQ)
+    if a.get("observable", True):
+        problem.add_observable(quad)
+    if a.get("tol"):
+        problem.tolerances.inequality = 1e-3
+        problem.tolerances.equality = 1e-2
+    return problem
+
+
+def build_function(a):
+    """Returns (function, input dimension, owning problem or None)."""
+    from gemseo.core.mdo_functions.concatenate import Concatenate
+    from gemseo.core.mdo_functions.convex_linear_approx import ConvexLinearApprox
+    from gemseo.core.mdo_functions.discipline_adapter_generator import DisciplineAdapterGenerator
+    from gemseo.core.mdo_functions.function_restriction import FunctionRestriction
+    from gemseo.core.mdo_functions.linear_composite_function import LinearCompositeFunction
+    from gemseo.core.mdo_functions.taylor_polynomials import compute_linear_approximation
+    from gemseo.core.mdo_functions.taylor_polynomials import compute_quadratic_approximation
+
+    kind = FUNCTION_KINDS[a["kind"] % len(FUNCTION_KINDS)]
+    n = a["n"]
+    f, g, lin, quad = _basic_functions(a, n)
+    x0 = np.linspace(0.25, 0.75, n)
+    if kind == "MDOFunction_scalar":
+        return f, n, None
+    if kind == "MDOFunction_vector":
+        return g, n, None
+    if kind == "MDOLinearFunction":
+        return lin, n, None
+    if kind == "MDOQuadraticFunction":
+        return quad, n, None
+    if kind == "sum_and_scale":
+        return (f + quad) * 2.0 - lin, n, None
+    if kind == "product":
+        return f * quad, n, None
+    if kind == "quotient":
+        return f / (quad * quad + 1.0), n, None
+    if kind == "offset_neg":
+        return -(g.offset(1.5)), n, None
+    if kind == "FunctionRestriction":
+        return FunctionRestriction(np.array([0]), np.array([0.5]), n, g), n - 1, None
+    if kind == "ConvexLinearApprox":
+        return ConvexLinearApprox(x0, f), n, None
+    if kind == "LinearCompositeFunction":
+        return LinearCompositeFunction(f, np.hstack([np.eye(n), np.ones((n, 1))])), n + 1, None
+    if kind == "Concatenate":
+        return Concatenate([g, lin], "g_lin"), n, None
+    if kind == "DisciplineAdapter":
+        return DisciplineAdapterGenerator(_inner(0)).get_function(["x", "z"], ["y", "w"]), 2, None
+    if kind == "linear_approximation":
+        return compute_linear_approximation(g, x0), n, None
+    if kind == "quadratic_approximation":
+        return compute_quadratic_approximation(f, x0, np.eye(n) * 2.0), n, None
+    problem = build_problem(a)
+    problem.preprocess_functions(is_function_input_normalized=bool(a["normalized"]), use_database=bool(a["database"]))
+    if kind == "ProblemFunction_objective":
+        return problem.objective, n, problem
+    if kind == "ProblemFunction_constraint":
+        return problem.constraints[0], n, problem
+    return problem.observables[0], n, problem
+
+
+_fun_args = st.fixed_dictionaries({
+    "kind": st.integers(0, len(FUNCTION_KINDS) - 1), "n": st.integers(2, 3),
+    "c": st.lists(st.integers(-3, 3), min_size=4, max_size=6), "normalized": st.booleans(), "database": st.booleans(),
+    "fd": st.booleans(), "maximize": st.booleans(), "positive": st.booleans(),
+})
+reg(Recipe("MDOFunction", "function", tuple(FUNCTION_KINDS), _fun_args, build_function))
+
+reg(Recipe(
+    "OptimizationProblem", "problem", ("OptimizationProblem",),
+    st.fixed_dictionaries({
+        "n": st.integers(2, 3), "c": st.lists(st.integers(-3, 3), min_size=4, max_size=6), "fd": st.booleans(),
+        "maximize": st.booleans(), "positive": st.booleans(), "ineq": st.booleans(), "eq": st.booleans(),
+        "observable": st.booleans(), "tol": st.booleans(),
+    }),
+    build_problem,
+))
+
+
+# ======================================================================================
+# design and parameter spaces
+# ======================================================================================
+_VAR_NAMES = ["x", "yy", "z_3", "w"]
+_DISTRIBUTIONS = {
+    "OT": [("OTNormalDistribution", {"mu": 1.0, "sigma": 2.0}), ("OTUniformDistribution", {"minimum": -1.0, "maximum": 2.0}),
+           ("OTTriangularDistribution", {"minimum": 0.0, "mode": 0.5, "maximum": 2.0})],
+    "SP": [("SPNormalDistribution", {"mu": 1.0, "sigma": 2.0}), ("SPUniformDistribution", {"minimum": -1.0, "maximum": 2.0}),
+           ("SPTriangularDistribution", {"minimum": 0.0, "mode": 0.5, "maximum": 2.0})],
+}
+
+
+def build_space(a):
+    """A DesignSpace, or a ParameterSpace when ``a['random']`` lists random variables."""
+    from gemseo.algos.design_space import DesignSpace
+    from gemseo.algos.parameter_space import ParameterSpace
+
+    space = ParameterSpace() if a["random"] else DesignSpace()
+    for k, v in enumerate(a["vars"]):
+        name = _VAR_NAMES[k]
+        size = v["size"]
+        integer = v["integer"]
+        lb = None if v["lb"] is None else (float(int(v["lb"])) if integer else float(v["lb"]))
+        ub = None if v["ub"] is None else lb_plus(lb, v["ub"], integer)
+        value = None
+        if v["value"] is not None:
+            lo = lb if lb is not None else (ub - 4.0 if ub is not None else -2.0)
+            hi = ub if ub is not None else lo + 4.0
+            value = lo + (hi - lo) * np.array([(v["value"] + 0.37 * i) % 1.0 for i in range(size)])
+            if integer:
+                value = np.round(value)
+        space.add_variable(
+            name, size=size, type_="integer" if integer else "float",
+            lower_bound=-np.inf if lb is None else lb, upper_bound=np.inf if ub is None else ub, value=value,
+        )
+    family = "OT" if a["family"] % 2 == 0 else "SP"
+    for k, r in enumerate(a["random"]):
+        dist, params = _DISTRIBUTIONS[family][r["dist"] % 3]
+        space.add_random_variable(f"u{k}", dist, size=r["size"], **params)
+    return space
+
+
+def lb_plus(lb, width, integer):
+    base = 0.0 if lb is None else lb
+    w = float(int(width)) + 1.0 if integer else float(width) + 0.5
+    return base + w
+
+
+_var_st = st.fixed_dictionaries({
+    "size": st.integers(1, 3), "integer": st.booleans(), "lb": st.one_of(st.none(), st.sampled_from([-2, -1.5, 0, 1])),
+    "ub": st.one_of(st.none(), st.sampled_from([0, 1, 2.5, 4])), "value": st.one_of(st.none(), st.sampled_from([0.0, 0.25, 0.6, 0.99])),
+})
+reg(Recipe(
+    "Space", "space", ("DesignSpace", "ParameterSpace"),
+    st.fixed_dictionaries({
+        "vars": st.lists(_var_st, min_size=1, max_size=3),
+        "random": st.lists(st.fixed_dictionaries({"dist": st.integers(0, 2), "size": st.integers(1, 2)}), min_size=0, max_size=2),
+        "family": st.integers(0, 1),
+    }),
+    build_space,
 ))
